@@ -312,6 +312,10 @@ func main() {
 		pprof.StartCPUProfile(f)
 		defer pprof.StopCPUProfile()
 	}
+	if len(os.Args) >= 2 && os.Args[1] == "initcfg" {
+		initCfg()
+		return
+	}
 	if len(os.Args) >= 2 && os.Args[1] == "probe" {
 		// which of the two behaviours the property allows does RegisterCandidate have for the upper-case spelling?
 		w := newWorld(newNames(vio.Seed()), 4, "C34")
